@@ -406,7 +406,17 @@ class SimpleOperationExecutor:
         Raises:
             OSError: If an OS error occurred.
         """
-        subfiles = os.listdir(dir_)
+        try:
+            subfiles = os.listdir(dir_)
+        except (FileNotFoundError, NotADirectoryError):
+            # While we are checking whether cached results are still valid, a
+            # directory may exist only in created_files, because we haven't
+            # created it in the real file system
+            if (created_files is None or
+                    not created_files.has_norm_cased_dir(
+                        os.path.normcase(dir_))):
+                raise
+            subfiles = []
         if created_files is not None:
             norm_cased_subfiles = set(
                 [os.path.normcase(subfile) for subfile in subfiles])
